@@ -1,0 +1,23 @@
+//go:build verif
+
+package node
+
+import (
+	"sync/atomic"
+	"time"
+)
+
+// Verification-only knob (/verif, property C04): the timeout of one read-index round of
+// readIndexLoop, so that the "late answer of a timed-out round" schedule takes one second instead
+// of six. 0 = the built-in value. Read once per KVNode, when its readIndexLoop starts.
+var verifReadIndexTO int64
+
+// VerifSetReadIndexTimeout sets the round timeout used by namespace nodes started afterwards.
+func VerifSetReadIndexTimeout(d time.Duration) { atomic.StoreInt64(&verifReadIndexTO, int64(d)) }
+
+func verifReadIndexTimeout(def time.Duration) time.Duration {
+	if d := atomic.LoadInt64(&verifReadIndexTO); d > 0 {
+		return time.Duration(d)
+	}
+	return def
+}
